@@ -337,6 +337,9 @@ pub fn gen_l2_case(t: &mut Tape, rich: bool) -> Case {
     if t.chance(1, 6) {
         cfg.max_gap = 1 << 12;
     }
+    // a first base that carries the shared vftable pointer may sit behind a gap
+    cfg.vft_base_anywhere = t.chance(1, 3);
+    cfg.alias_types = 4;
     let (mut prog, _, _) = gen_prog(t, cfg);
     if !rich && t.chance(1, 3) {
         let n = 1 + t.below(2);
